@@ -63,10 +63,16 @@ def _exercise(report, lab, lean, n_sets, seed):
         sidx = [i for i, s in enumerate(pj) if s["stream"]]
         if not sidx:
             continue
-        for k in range(n_sets):
+        long_set = lab.idx == 1000 and any('"arr"' in json.dumps(pj[i]["ty"]) for i in sidx)
+        for k in range(n_sets + (1 if long_set else 0)):
             vals = g.gen_step_vals(pj, stream_len=0)
             for i in sidx:
-                vals[i] = ["stream", _items(g, pj[i]["ty"], g.rng.choice([2, 3, 5, 8, 13]))]
+                n_items = g.rng.choice([2, 3, 5, 8, 13])
+                if k == n_sets and '"arr"' in json.dumps(pj[i]["ty"]):
+                    # a stream much longer than any reader's buffer (64 KiB in Python): items kept by the consumer must
+                    # not change when later items are read
+                    n_items = 600
+                vals[i] = ["stream", _items(g, pj[i]["ty"], n_items)]
             outs = []
             for variant in range(2):
                 parts = [g.gen_partition(len(v[1])) if v[0] == "stream" else [] for v in vals]
